@@ -20,6 +20,10 @@ pub struct Case {
   /// bit i set: the i-th enabled rule has a `fix`
   #[serde(default)]
   pub fixable: u8,
+  /// CLI only: every rule is restricted to another directory by `files`, so no rule applies to
+  /// the file; its suppression comments are then all unused and must still be reported
+  #[serde(default)]
+  pub restrict: bool,
 }
 
 #[derive(Clone, Debug)]
@@ -42,8 +46,8 @@ pub struct Choice {
 pub fn strategy() -> BoxedStrategy<Choice> {
   let line = (
     0u8..12,
-    prop::collection::vec(0u8..12, 0..=2),
-    prop::option::weighted(0.45, 0u8..12),
+    prop::collection::vec(0u8..14, 0..=2),
+    prop::option::weighted(0.45, 0u8..14),
     prop::bool::weighted(0.25),
   )
     .prop_map(|(stmt, own, trailing, in_block)| LineC {
@@ -52,7 +56,7 @@ pub fn strategy() -> BoxedStrategy<Choice> {
       trailing,
       in_block,
     });
-  (0u8..8, prop::collection::vec(line, 1..10), 1u8..64, prop::option::weighted(0.2, 0u8..12), any::<u8>())
+  (0u8..8, prop::collection::vec(line, 1..10), 1u8..=255, prop::option::weighted(0.2, 0u8..14), any::<u8>())
     .prop_map(|(lang, lines, rules, tail_comment, fixable)| Choice {
       lang,
       lines,
@@ -88,7 +92,7 @@ const STMTS: &[&str] = &[
 
 /// (id, function matched): `r-ba` is a proper prefix of `r-bar` / `r-baz` and fires with `r-bar`;
 /// `r-foo-1` extends `r-foo` and fires with it
-const ALL_RULES: &[(&str, &str)] = &[("r-foo", "foo"), ("r-bar", "bar"), ("r-baz", "baz"), ("r-qux", "qux"), ("r-ba", "bar"), ("r-foo-1", "foo")];
+const ALL_RULES: &[(&str, &str)] = &[("r-foo", "foo"), ("r-bar", "bar"), ("r-baz", "baz"), ("r-qux", "qux"), ("r-ba", "bar"), ("r-foo-1", "foo"), ("style/no-qux", "qux"), ("sec.no-baz", "baz")];
 
 fn comment_body(k: u8) -> &'static str {
   match k {
@@ -102,7 +106,9 @@ fn comment_body(k: u8) -> &'static str {
     8 => "just a note",
     9 => "ast-grep-ignore: r-baz",
     10 => "ast-grep-ignore: r-ba",
-    _ => "ast-grep-ignore: r-foo-1, r-bar",
+    11 => "ast-grep-ignore: r-foo-1, r-bar",
+    12 => "ast-grep-ignore: style/no-qux",
+    _ => "ast-grep-ignore: sec.no-baz, r-foo",
   }
 }
 
@@ -176,6 +182,7 @@ pub fn interpret(ch: &Choice, _st: &mut Stats) -> Option<Case> {
     rules,
     cli: false,
     fixable: ch.fixable,
+    restrict: false,
   })
 }
 
@@ -187,7 +194,8 @@ pub fn rules_yaml(case: &Case) -> String {
     .map(|(i, id)| {
       let f = ALL_RULES.iter().find(|r| r.0 == id.as_str()).map(|r| r.1).unwrap_or("foo");
       let fix = if case.fixable & (1 << i) != 0 { format!("fix: {f}x($$$A)\n") } else { String::new() };
-      format!("id: {id}\nlanguage: {}\nseverity: warning\nrule:\n  pattern: {f}($$$A)\n{fix}", case.lang)
+      let files = if case.restrict { "files: ['elsewhere/**']\n" } else { "" };
+      format!("id: {id}\nlanguage: {}\nseverity: warning\nrule:\n  pattern: {f}($$$A)\n{fix}{files}", case.lang)
     })
     .collect::<Vec<_>>()
     .join("---\n")
@@ -291,6 +299,11 @@ pub fn check(case: &Case, st: &mut Stats) -> CheckResult {
         findings.entry(l).or_default().push((c.id.clone(), col));
       }
     }
+  }
+  if case.restrict && case.cli {
+    // no rule applies to this path
+    findings.clear();
+    st.label("no_rule_applies_to_the_file");
   }
   if findings.is_empty() {
     st.label("no_finding_at_all");
@@ -440,6 +453,7 @@ pub fn run(cfg: &RunCfg) -> i32 {
     |c, st| {
       interpret(c, st).map(|mut k| {
         k.cli = true;
+        k.restrict = k.fixable & 0x80 != 0 && k.fixable & 0x40 != 0;
         k
       })
     },
